@@ -8,7 +8,7 @@ index, single int() reads, slice bounds, unpack order, zero-assigned names, yiel
 `(name, …) = entry` unpack, the stored tuple order, which names are scaled, `DISK_SECTOR_SIZE`,
 the partition-skip condition, `is_storage_device`'s replace/prefix, the namedtuple field lists,
 the `{}`/`None` conventions and the zip-sum of both front ends, and the assignments of
-`_psposix.disk_usage`.
+`_psposix.disk_usage`; second extension round: `assert colon > k`, `line[colon + k:]`, the defaults of `perdisk` / `pernic`.
 
 Correspondence: the REAL `psutil.net_io_counters / psutil.disk_io_counters` (front end →
 `_pslinux` → parsing of a fake procfs; `os.access`, `os.path.exists`, `os.listdir`, `os.walk` redirected for
@@ -36,7 +36,7 @@ NEEDS_EXT = True
 TRUSTED = [
     "C09 kernel-side renderers (Spec/C09.lean): /proc/net/dev line `%6s: %7llu %7llu %4llu %4llu %4llu %5llu %10llu %9llu %8llu %7llu %4llu %4llu %4llu %5llu %7llu %10llu`, /proc/diskstats line `%4d %7d %s` + 11 (+4, +6) blank-separated counters, the 7-field partition line of 2.6.0-2.6.24, and psutil's own 15-field '2.4' layout as pinned by the test-suite (test_emulate_kernel_2_4); validated each run against the live /proc/net/dev and /proc/diskstats of the sandbox by an independent strict parser",
     "C09: int() on ASCII tokens is Base/C09Int.pyInt? (surrounding 9-13/32 stripped - not 0x1c-0x1f -, optional sign, single underscores between digits, leading zeros; compared with CPython's int() on every token of length <= 4 over '+-_019x', blank, 0x1f on every run); a negative result, a token with a byte >= 0x80 (int() accepts non-ASCII decimal digits) and text in which str.split() would see a UTF-8 encoded Unicode space are reported by the model as 'unmodelled' and not judged; the 4300-digit limit of int() (sys.int_info.default_max_str_digits) is not modelled: kernel counters have at most 20 digits",
-    "C09: read_sysfs sees /sys/block through os.path.exists / os.listdir / os.walk, which the harness redirects (for the paths '/sys/block' and '/sys/block/...' only) into a temp tree; os.walk itself (top-down, followlinks=False) is modelled by Base/C09Sysfs.walk, the tree handed to the model is read back from the temp tree in os.scandir order; kernel `stat` renderer (Spec.renderStat: '%8lu' cells, one blank between, '\\n') is a trusted transcription of Documentation/block/stat.rst / part_stat_show",
+    "C09: read_sysfs sees /sys/block through os.path.exists / os.listdir / os.walk, which the harness redirects (for the paths '/sys/block' and '/sys/block/...' only) into a temp tree; os.walk itself (top-down, followlinks=False) is modelled by Base/C09Sysfs.walk, the tree handed to the model is read back from the temp tree in os.scandir order; in the 'permuted listing order' cases the redirected os.listdir sorts its result and the redirected os.walk re-orders `dirs` (in place) and `files` of every directory by a seeded pseudo-random key before yielding (the documented way for a caller of a top-down walk to fix the traversal order) - this stands for a file system that lists the entries in that order; in the 'kernel layout' cases /sys/block/<dev> are symlinks into <root>/sys/devices and every device directory holds `subsystem`/`bdi` symlinks to directories, which os.walk lists but does not enter: such sub-directories are not part of the modelled tree; kernel `stat` renderer (Spec.renderStat: '%8lu' cells, one blank between, '\\n') is a trusted transcription of Documentation/block/stat.rst / part_stat_show",
     "C09: is_storage_device is os.access('/sys/block/<name with / -> !>', F_OK); the harness redirects exactly these paths into a temp tree and calls the real os.access there",
     "C09: round(x, 1) on an IEEE double is compared with the exact rational rounded half-even (tolerance 1e-9) and, within 1e-7 of a rounding tie, with +-0.05 of the exact value",
 ]
@@ -46,9 +46,11 @@ ASSUMPTIONS = [
     "/sys/block source (C09_sysfs*): kernel-shaped tree - `stat` is the only file of that name in a device directory, attribute directories contain no file called `stat` (a deeper `stat` file IS read by the code and by the model: raw family 'deepstat'), directory names distinct and not '.'/'..'; names need not be split() tokens; kernel names contain no '!' (the kernel's '/' -> '!' is not injective otherwise); with the bare basename(root) of the code as found a device whose kernel name contains '/' was reported under its directory name (former finding C09-sysfs-slash-name, fixed in /repo by da4a5df): C09_sysfs_agrees_with_procfs_Full is proved for the generated configuration (C09_sysfs_agrees_with_procfs_full, through the obligation cfg_sysfs_unbang: cfg.nameReplace = some ('!','/')), refuted for the bare one",
     "device names are unique within one /proc file for the round-trip/sum theorems (the model itself keeps dict-overwrite semantics and the correspondence exercises duplicates)",
     "nowrap=False (nowrap=True post-processing is property C10)",
+    "/sys/block in any listing order (C09_sysfs_any_order, C09_sysfs_total_any_order): Spec.SysListing - every directory of the kernel-shaped tree (the /sys/block listing, the files and the partition/attribute sub-directories of a disk directory, the files and attribute directories of a partition directory) may be listed in any order; the per-device answer is then the promised dict up to the order of its items (Expect.same), the total is literally the promised value",
+    "disk_usage: os.statvfs raising OSError is outside the statement ('every statvfs result'); the model (diskUsageCall, C09_disk_usage_call) propagates the error with its errno and the correspondence compares that on 7 errnos, with no specification column",
 ]
 MANIFEST = {
-    "level_text": "Machine-checked Lean 4 proofs over a model of _pslinux.net_io_counters, _pslinux.disk_io_counters (read_procfs, read_sysfs, the choice between them, NotImplementedError, is_storage_device filter), the two psutil front ends (nowrap=False; the zip/sum of the system-wide branch is a translator fact) and _psposix.disk_usage: round-trip theorems parse(render(table)) = documented fields for EVERY interface table (names with ':' '/' digits, unbounded counters) and for every /proc/diskstats table mixing the 14-, 18-, 20- (any >=18), 7- and 15-field layouts (sectors x 512), ValueError for every other field count, total = field-wise sum over whole disks only / over all interfaces (deleting every partition line leaves the total unchanged), None/{} conventions, the same for every kernel-shaped /sys/block tree when /proc/diskstats is absent (stat files of 11, 15, 17 or more fields, partitions below disks, attribute files/directories around; fewer than 10 fields: ValueError) and agreement of the two sources for the same kernel state (full strength for the code as it is, C09_sysfs_agrees_with_procfs_full: read_sysfs uses `.replace('!', '/')` - translator fact sysfsNameReplace pinned by the obligation cfg_sysfs_unbang -; counterexample 'c/d' proved for the bare basename(root) of the code as found: former finding C09-sysfs-slash-name, fixed in /repo by da4a5df), NotImplementedError when neither exists, int() acceptance on ASCII tokens, disk_usage formulas, 0 <= percent <= 100, |round1 q - q| <= 1/20. The full-strength name statement (every interface name free of C-locale whitespace is reported unchanged) is proved for the translator-generated configuration (C09_net_names_full: the source uses `.strip(' ')`) and refuted with a witness for the bare `.strip()` (former finding C09-net-name-strip, fixed in /repo by eb17d63). The model's column maps, branch table, sector size, skip condition, namedtuple fields and disk_usage assignments are regenerated from the source on every run and are parameters of the model the theorems are about; the model is tied to the code by a differential run of the real front-end functions over a fake procfs whose files are produced by the Lean renderers.",
+    "level_text": "Machine-checked Lean 4 proofs over a model of _pslinux.net_io_counters, _pslinux.disk_io_counters (read_procfs, read_sysfs, the choice between them, NotImplementedError, is_storage_device filter), the two psutil front ends (nowrap=False; the zip/sum of the system-wide branch is a translator fact) and _psposix.disk_usage: round-trip theorems parse(render(table)) = documented fields for EVERY interface table (names with ':' '/' digits, unbounded counters) and for every /proc/diskstats table mixing the 14-, 18-, 20- (any >=18), 7- and 15-field layouts (sectors x 512), ValueError for every other field count, total = field-wise sum over whole disks only / over all interfaces (deleting every partition line leaves the total unchanged), None/{} conventions, the same for every kernel-shaped /sys/block tree when /proc/diskstats is absent (stat files of 11, 15, 17 or more fields, partitions below disks, attribute files/directories around; fewer than 10 fields: ValueError) and agreement of the two sources for the same kernel state (full strength for the code as it is, C09_sysfs_agrees_with_procfs_full: read_sysfs uses `.replace('!', '/')` - translator fact sysfsNameReplace pinned by the obligation cfg_sysfs_unbang -; counterexample 'c/d' proved for the bare basename(root) of the code as found: former finding C09-sysfs-slash-name, fixed in /repo by da4a5df), NotImplementedError when neither exists, the same /sys/block answer for EVERY listing order of every directory of the tree (C09_sysfs_any_order: same dict; C09_sysfs_total_any_order: literally the same total), int() acceptance on ASCII tokens, disk_usage formulas with the unit of every count stated (C09_disk_usage_units: all three block counts x f_frsize; C09_disk_usage_ignores_bsize: f_bsize plays no role; counterexample for the free counts x f_bsize), an OSError of os.statvfs reaching the caller (C09_disk_usage_call), 0 <= percent <= 100, |round1 q - q| <= 1/20. The full-strength name statement (every interface name free of C-locale whitespace is reported unchanged) is proved for the translator-generated configuration (C09_net_names_full: the source uses `.strip(' ')`) and refuted with a witness for the bare `.strip()` (former finding C09-net-name-strip, fixed in /repo by eb17d63). The model's column maps, branch table, sector size, skip condition, namedtuple fields and disk_usage assignments are regenerated from the source on every run and are parameters of the model the theorems are about; the model is tied to the code by a differential run of the real front-end functions over a fake procfs whose files are produced by the Lean renderers.",
     "level_note": "Trusted: Lean kernel + {propext, Classical.choice, Quot.sound}; the translator; the correspondence harness; kernel line renderers; int()/split()/strip()/round()/os.walk of CPython modelled; negative int() results, non-ASCII digit tokens and UTF-8 encoded Unicode spaces are outside the model's domain (the model says so, such inputs are counted and not judged).",
     "technique": "Lean 4 round-trip proofs (render → parse) per kernel layout with translator-fed column maps + sum laws by induction + differential correspondence over a fake procfs and a redirected /sys/block",
     "design_ref": "DESIGN.md §5 C09",
@@ -93,7 +95,22 @@ def _net_facts(tree):
     rfind = unpack = output = None
     strip = "?"
     min_colon = None
+    offset = None
     for st in loop.body:
+        if isinstance(st, ast.Assign) and len(st.targets) == 1 and L.dotted(st.targets[0]) == "fields":
+            # fields = line[colon + k:].strip().split()
+            v = st.value
+            ok = (isinstance(v, ast.Call) and isinstance(v.func, ast.Attribute) and v.func.attr == "split" and not v.args
+                  and not v.keywords and isinstance(v.func.value, ast.Call) and isinstance(v.func.value.func, ast.Attribute)
+                  and v.func.value.func.attr == "strip" and not v.func.value.args and not v.func.value.keywords)
+            sub = v.func.value.func.value if ok else None
+            if not (ok and isinstance(sub, ast.Subscript) and L.dotted(sub.value) == "line" and isinstance(sub.slice, ast.Slice)
+                    and sub.slice.upper is None and sub.slice.step is None and isinstance(sub.slice.lower, ast.BinOp)
+                    and isinstance(sub.slice.lower.op, ast.Add) and L.dotted(sub.slice.lower.left) == "colon"
+                    and isinstance(L.const(sub.slice.lower.right), int) and L.const(sub.slice.lower.right) >= 0):
+                raise NotRecognised("net_io_counters: %s" % L.unparse(st))
+            offset = L.const(sub.slice.lower.right)
+            continue
         if isinstance(st, ast.Assert):
             t = st.test
             if not (isinstance(t, ast.Compare) and len(t.ops) == 1 and L.dotted(t.left) == "colon"
@@ -131,7 +148,10 @@ def _net_facts(tree):
         raise NotRecognised("net_io_counters: colon/name/unpack/retdict statements not all recognised")
     if min_colon is None:
         raise NotRecognised("net_io_counters: `assert colon > k` not found")
-    return {"skip": skip, "rfind": rfind, "unpack": unpack, "output": output, "strip": strip, "min_colon": min_colon}
+    if offset is None:
+        raise NotRecognised("net_io_counters: `fields = line[colon + k:].strip().split()` not found")
+    return {"skip": skip, "rfind": rfind, "unpack": unpack, "output": output, "strip": strip, "min_colon": min_colon,
+            "offset": offset}
 
 
 def _guard(test):
@@ -586,6 +606,8 @@ def facts(snap, F):
               "`name = line[:colon].strip(<chars>)`: none = every whitespace character of str.strip(), some cs = only these")
     F.try_add("netMinColon", "Nat", lambda: L.lean_nat(net()["min_colon"]),
               "`assert colon > k` (k + 1) / `assert colon >= k` (k): the smallest index of the colon that is accepted")
+    F.try_add("netFieldsOffset", "Nat", lambda: L.lean_nat(net()["offset"]),
+              "`fields = line[colon + k:].strip().split()`: the counters start k characters after the colon's index")
     F.try_add("frontPerDefault", "List String",
               lambda: _strs([_front_default(init, "disk_io_counters", "perdisk"), _front_default(init, "net_io_counters", "pernic")]),
               "defaults of `perdisk` (psutil.disk_io_counters) and `pernic` (psutil.net_io_counters) as written: a call "
@@ -1121,7 +1143,7 @@ def render_net_line(name, cols):
 def gen_netraw_case(rng):
     """malformed / corner-case /proc/net/dev contents (model-only comparison)"""
     fam = rng.choice(["nocolon", "short", "long", "nonnum", "blank", "emptyname", "crlf", "noheader", "oneheader",
-                      "empty", "dup", "nofinalnl", "tabs", "leadzero", "signed", "negative", "unispace", "colonpos"])
+                      "empty", "dup", "nofinalnl", "tabs", "leadzero", "signed", "negative", "unispace", "colonpos", "adjacent"])
     rows = [(rng.choice([b"lo", b"eth0", b"eth0:1", b"w"]), distinct_row(rng, 16, "small", k)) for k in range(rng.randrange(1, 4))]
     lines = [H1, H2] + [render_net_line(n, c) for n, c in rows]
     end = b"\n"
@@ -1154,6 +1176,9 @@ def gen_netraw_case(rng):
             lines.append(render_net_line(b"zz", distinct_row(rng, 16, "small", 5)))
     elif fam == "tabs":
         lines.append(b"\teth9:\t" + b"\t".join(b"%d" % i for i in range(1, 17)) + b"\t")
+    elif fam == "adjacent":
+        # no blank between the colon and the first counter (old kernels, wide counters)
+        lines.append(rng.choice([b"  eth9:", b"eth9:", b"a:b:"]) + b" ".join(b"%d" % v for v in distinct_row(rng, 16, "mid", 3)))
     elif fam == "colonpos":
         # the colon at index 0..3 of an unpadded line (`assert colon > 0`)
         lines.append(rng.choice([b"", b"a", b"ab", b"abc"]) + b": " + b" ".join(b"%d" % i for i in range(1, 17)))
@@ -1720,6 +1745,14 @@ def exhaustive_ops():
         for per in (True, False):
             ops.append(({"op": "netraw", "file": (H1 + b"\n" + H2 + b"\n" + line + b"\n").hex(), "pernic": per},
                         {"fam": "colonpos"}))
+    # the counters directly after the colon, as kernels before 2.6.x printed them ("%6s:%8lu %7lu ..."): a first counter of
+    # 1..9 digits touching the colon, every other column distinct
+    for nd in range(1, 10):
+        first = int("987654321"[:nd])
+        line = b"  eth0:" + b"%d" % first + b"".join(b" %d" % (i + 2) for i in range(15))
+        for per in (True, False):
+            ops.append(({"op": "netraw", "file": (H1 + b"\n" + H2 + b"\n" + line + b"\n").hex(), "pernic": per},
+                        {"fam": "adjacent"}))
     # the system-wide form by default argument, on a non-empty and an empty table of each kind
     lo = render_net_line(b"lo", list(range(1, 17)))
     e0 = render_net_line(b"eth0", list(range(21, 37)))
@@ -1760,7 +1793,7 @@ def correspond(ctx, res):
         ops += [(o, m, "exhaustive") for o, m in exhaustive_ops()]
         n_exh = len(ops) - n_exh0
         ops += [(o, m, "storage") for o, m in storage_ops(ctx.rng)]
-        n = ctx.n(1000, 40000)
+        n = ctx.n(1000, 30000)
         for i in range(n):
             r = i % 20
             if r < 5:
